@@ -25,6 +25,7 @@ pub fn init() {
 
 mod proto;
 mod cmds;
+mod cmds2;
 
 fn main() {
     // panics are classified per request by catch_unwind; keep stderr quiet
@@ -37,6 +38,7 @@ fn main() {
         "dump-zobrist" => cmds::dump_zobrist(),
         "dump-eval" => cmds::dump_eval(),
         "dump-misc" => cmds::dump_misc(),
+        "dump-lmr" => cmds::dump_lmr(&args[2], &args[3]),
         _ => {
             eprintln!("usage: tvharness [serve|dump-zobrist|dump-eval|dump-misc]");
             std::process::exit(2);
